@@ -82,6 +82,12 @@ func genC08Route(rng *Rng, sc *Scenario, k int, faulty bool) (RegOp, Req) {
 		sc.Handlers[m] = s
 	}
 	main := c08Ops(rng, rng.Intn(budget+1), !faulty)
+	if rng.Chance(1, 6) {
+		// re-dispatch to a sibling route whose chain is exactly as long as this one
+		main = append(main, Action{Op: "redispatch", S: fmt.Sprintf("/rd%d", k)})
+		main = append(main, c08Ops(rng, rng.Intn(3), !faulty)...)
+		sc.Handlers[id("q", 0)] = append(c08Ops(rng, rng.Intn(4), !faulty), Action{Op: "obs"})
+	}
 	main = append(main, Action{Op: "obs"})
 	sc.Handlers[op.H] = main
 	rq := Req{Method: op.Methods[0], Path: op.Path}
@@ -130,6 +136,13 @@ func genC08(faulty, concurrent bool) func(rng *Rng, sc *Scenario) {
 		for k := 0; k < n; k++ {
 			op, rq := genC08Route(rng, sc, k, faulty)
 			sc.Program = append(sc.Program, op)
+			if _, ok := sc.Handlers[fmt.Sprintf("q%d", k*10)]; ok {
+				sib := RegOp{Op: "route", Via: "verb", Path: fmt.Sprintf("/rd%d", k), Methods: op.Methods, H: fmt.Sprintf("q%d", k*10)}
+				for i := range op.MW {
+					sib.MW = append(sib.MW, fmt.Sprintf("s%d", k*10+i)) // default middleware script: obs, next, obs
+				}
+				sc.Program = append(sc.Program, sib)
+			}
 			cl := Client{Reqs: []Req{rq}}
 			if rng.Chance(1, 4) {
 				cl.Reqs = append(cl.Reqs, rq) // the same request again on a reused context
@@ -247,6 +260,8 @@ func modelCommit(prop string, rec *ReqRec, rq *Req, judgePanicked, opaque bool) 
 			case "flush":
 				commit()
 				exp = append(exp, WCall{Op: "Flush"})
+			case "endofdispatch":
+				commit() // a nested dispatch (HandleContext) ended: like every dispatch it commits the header
 			case "httperr":
 				p := strings.SplitN(arg, ":", 2)
 				code, _ := strconv.Atoi(p[0])
